@@ -2,7 +2,7 @@
 # tools/port_mut.sh <patch.diff> [--tier T]
 # Runs the standalone request-port runner (harness/c09_port.py) against a scratch worktree of /repo with the
 # patch applied, then removes the worktree.  Mutation diffs: tools/mutations/c09port/*.diff
-patch="$1"; shift
+patch=$(readlink -f "$1"); shift
 wt=$(mktemp -d /tmp/vwt.XXXXXX)
 git -C /repo worktree add -q --detach "$wt" HEAD
 cleanup() { git -C /repo worktree remove --force "$wt" 2>/dev/null || rm -rf "$wt"; }
